@@ -654,6 +654,14 @@ func conclude(spec *Spec, s *sched, tier string, seed int, t0 time.Time, noEvide
 			case "confirmed":
 				confirmed = append(confirmed, fmt.Sprintf("VIOLATION property=%s replay=%s", spec.Property, path))
 				fmt.Printf("  unit=%s kind=%s id=%s %s sets=%v witness=%s\n  native: %s\n", u.Name, v.v.Kind, v.v.ID, v.v.Msg, v.sets, strings.TrimSpace(witnessStr(v.v.Witness)), res.detail)
+				seen := map[string]bool{}
+				for _, o := range g[1:] {
+					k := fmt.Sprint(o.sets)
+					if !seen[k] && len(seen) < 12 {
+						seen[k] = true
+						fmt.Printf("    also: sets=%v witness=%s\n", o.sets, strings.TrimSpace(witnessStr(o.v.Witness)))
+					}
+				}
 			case "modelbug":
 				machinery = append(machinery, fmt.Sprintf("%s: reference model disagrees with the real oracle on %s (%s)", u.Name, v.v.ID, res.detail))
 			default:
